@@ -72,8 +72,10 @@ func RandomProgram(seed uint64, o RandomOpts) *Program {
 	nMsgs := 3 + r.n(5)
 	nRoots := 2 + r.n(2)
 	depth := map[string]int{"Void": 0}
-	embeddable := func(m *Message) bool {
-		if len(m.Fields) == 0 || len(m.Oneofs) > 0 {
+	// a message with a oneof can be embedded by value only (a oneof member inside a nullable embedded
+	// message does not compile at the pinned commit)
+	embeddable := func(m *Message, nullable bool) bool {
+		if len(m.Fields) == 0 || (len(m.Oneofs) > 0 && nullable) {
 			return false
 		}
 		return true
@@ -183,7 +185,7 @@ func RandomProgram(seed uint64, o RandomOpts) *Program {
 				f.Kind = KInt64
 			}
 			// embedding
-			if f.Kind == KMessage && f.Card == CardOne && !embedded[f.Ref] && embeddable(p.Msg(f.Ref)) && r.p(1, 4) {
+			if f.Kind == KMessage && f.Card == CardOne && !embedded[f.Ref] && embeddable(p.Msg(f.Ref), f.Nullable) && r.p(1, 4) {
 				ok := true
 				// an embedded message must not itself embed (keeps promoted names simple) and must be
 				// embedded at most once per parent
